@@ -10,6 +10,10 @@ import Chrono.Extracted.Anchors
 namespace Chrono.Pins.C12
 open Chrono.Extracted.Anchors
 
+/-- src/datetime/mod.rs:fn format -/
+theorem src_datetime_mod_rs_fn_format : C12_src_datetime_mod_rs_fn_format =
+    ["<", ">", "&", "self", "v1", "&", "str", "->", "DelayedFormat", "<", "StrftimeItems", "<", ">>", "self", "format_with_items(", "StrftimeItems", "new(", "v1"] := by decide +kernel
+
 /-- src/datetime/mod.rs:fn format_with_items -/
 theorem src_datetime_mod_rs_fn_format_with_items : C12_src_datetime_mod_rs_fn_format_with_items =
     ["<", "I", "B", ">", "&", "self", "v1", "I", "->", "DelayedFormat", "<", "I", ">", "I", "Iterator", "<", "Item", "B", ">", "+", "Clone", "B", "Borrow", "<", "Item", "<", ">>", "v2", "self", "overflowing_naive_local(", "DelayedFormat", "new_with_offset(", "Some(", "v2", "date(", "Some(", "v2", "time(", "&", "self", "v3", "v1"] := by decide +kernel
@@ -118,13 +122,41 @@ theorem src_format_strftime_rs_fn_switch_to_locale_str : C12_src_format_strftime
 theorem src_format_strftime_rs_impl_Iterator_for_StrftimeItems : C12_src_format_strftime_rs_impl_Iterator_for_StrftimeItems =
     ["<", ">", "Iterator", "for", "StrftimeItems", "<", ">", "Item", "Item", "<", ">", "next(", "&", "self", "->", "Option", "<", "Item", "<", ">>", "if", "Some(", "v1", "v2", "self", "v3", "split_first(", "self", "v3", "v2", "return", "Some(", "v1", "clone(", "if", "!", "self", "v4", "is_empty(", "let(", "v2", "v1", "self", "parse_next_item(", "self", "v4", "?", "self", "v4", "v2", "return", "Some(", "v1", "let(", "v2", "v1", "self", "parse_next_item(", "self", "v2", "?", "self", "v2", "v2", "Some(", "v1"] := by decide +kernel
 
+/-- src/naive/date/mod.rs:fn format -/
+theorem src_naive_date_mod_rs_fn_format : C12_src_naive_date_mod_rs_fn_format =
+    ["<", ">", "&", "self", "v1", "&", "str", "->", "DelayedFormat", "<", "StrftimeItems", "<", ">>", "self", "format_with_items(", "StrftimeItems", "new(", "v1"] := by decide +kernel
+
+/-- src/naive/date/mod.rs:fn format_with_items -/
+theorem src_naive_date_mod_rs_fn_format_with_items : C12_src_naive_date_mod_rs_fn_format_with_items =
+    ["<", "I", "B", ">", "&", "self", "v1", "I", "->", "DelayedFormat", "<", "I", ">", "I", "Iterator", "<", "Item", "B", ">", "+", "Clone", "B", "Borrow", "<", "Item", "<", ">>", "DelayedFormat", "new(", "Some(", "*", "self", "None", "v1"] := by decide +kernel
+
 /-- src/naive/date/mod.rs:fn weeks_from -/
 theorem src_naive_date_mod_rs_fn_weeks_from : C12_src_naive_date_mod_rs_fn_weeks_from =
     ["&", "self", "v1", "Weekday", "->", "i32", "self", "ordinal(", "as", "i32", "-", "self", "weekday(", "days_since(", "v1", "as", "i32", "+", "6", "/", "7"] := by decide +kernel
 
+/-- src/naive/datetime/mod.rs:fn format -/
+theorem src_naive_datetime_mod_rs_fn_format : C12_src_naive_datetime_mod_rs_fn_format =
+    ["<", ">", "&", "self", "v1", "&", "str", "->", "DelayedFormat", "<", "StrftimeItems", "<", ">>", "self", "format_with_items(", "StrftimeItems", "new(", "v1"] := by decide +kernel
+
+/-- src/naive/datetime/mod.rs:fn format_with_items -/
+theorem src_naive_datetime_mod_rs_fn_format_with_items : C12_src_naive_datetime_mod_rs_fn_format_with_items =
+    ["<", "I", "B", ">", "&", "self", "v1", "I", "->", "DelayedFormat", "<", "I", ">", "I", "Iterator", "<", "Item", "B", ">", "+", "Clone", "B", "Borrow", "<", "Item", "<", ">>", "DelayedFormat", "new(", "Some(", "self", "v2", "Some(", "self", "v3", "v1"] := by decide +kernel
+
 /-- src/naive/isoweek.rs:fn from_yof -/
 theorem src_naive_isoweek_rs_fn_from_yof : C12_src_naive_isoweek_rs_fn_from_yof =
     ["v1", "i32", "v2", "u32", "v3", "YearFlags", "->", "Self", "v4", "v2", "+", "v3", "isoweek_delta(", "/", "7", "let(", "v1", "v5", "if", "v4", "<", "1", "v6", "YearFlags", "from_year(", "v1", "-", "1", "nisoweeks(", "v1", "-", "1", "v6", "else", "v7", "v3", "nisoweeks(", "if", "v4", ">", "v7", "v1", "+", "1", "1", "else", "v1", "v4", "v8", "YearFlags", "from_year(", "v1", "IsoWeek", "v9", "v1", "<<", "10", "|", "v5", "<<", "4", "as", "i32", "|", "i32", "from(", "v8"] := by decide +kernel
+
+/-- src/naive/time/mod.rs:fn format -/
+theorem src_naive_time_mod_rs_fn_format : C12_src_naive_time_mod_rs_fn_format =
+    ["<", ">", "&", "self", "v1", "&", "str", "->", "DelayedFormat", "<", "StrftimeItems", "<", ">>", "self", "format_with_items(", "StrftimeItems", "new(", "v1"] := by decide +kernel
+
+/-- src/naive/time/mod.rs:fn format_with_items -/
+theorem src_naive_time_mod_rs_fn_format_with_items : C12_src_naive_time_mod_rs_fn_format_with_items =
+    ["<", "I", "B", ">", "&", "self", "v1", "I", "->", "DelayedFormat", "<", "I", ">", "I", "Iterator", "<", "Item", "B", ">", "+", "Clone", "B", "Borrow", "<", "Item", "<", ">>", "DelayedFormat", "new(", "None", "Some(", "*", "self", "v1"] := by decide +kernel
+
+/-- src/traits.rs:fn hour12 -/
+theorem src_traits_rs_fn_hour12 : C12_src_traits_rs_fn_hour12 =
+    ["&", "self", "->", "bool", "u32", "v1", "self", "hour(", "v2", "v1", "%", "12", "if", "v2", "==", "0", "v2", "12", "v1", ">=", "12", "v2"] := by decide +kernel
 
 /-- callee src/datetime/mod.rs:fn from_naive_utc_and_offset -/
 theorem callee_src_datetime_mod_rs_fn_from_naive_utc_and_offset : C12_callee_src_datetime_mod_rs_fn_from_naive_utc_and_offset =
@@ -193,10 +225,6 @@ theorem callee_src_naive_time_mod_rs_fn_hms : C12_callee_src_naive_time_mod_rs_f
 /-- callee src/offset/fixed.rs:fn local_minus_utc -/
 theorem callee_src_offset_fixed_rs_fn_local_minus_utc : C12_callee_src_offset_fixed_rs_fn_local_minus_utc =
     ["&", "self", "->", "i32", "self", "v1"] := by decide +kernel
-
-/-- callee src/traits.rs:fn hour12 -/
-theorem callee_src_traits_rs_fn_hour12 : C12_callee_src_traits_rs_fn_hour12 =
-    ["&", "self", "->", "bool", "u32", "v1", "self", "hour(", "v2", "v1", "%", "12", "if", "v2", "==", "0", "v2", "12", "v1", ">=", "12", "v2"] := by decide +kernel
 
 /-- callee src/weekday.rs:fn days_since -/
 theorem callee_src_weekday_rs_fn_days_since : C12_callee_src_weekday_rs_fn_days_since =
